@@ -1,12 +1,91 @@
 import Driver.Util
-/-! Driver section for C13 (stub until the model is online). -/
+import RxnModel.Model.Publish
+/-! Driver section for C13: trace validation of publication / retention / restart against `Model/Publish.lean`.
+Every line is one action of the transition system the theorems are about (or an observation of its state). -/
 namespace Driver.C13
-open Rxn Driver
+open Rxn Driver Rxn.Publish
 
-def step (st : Unit) : List String → Unit × String
+structure St where
+  sys : Option Sys := none
+
+def natList (s : String) : List Nat :=
+  if s == "-" then [] else (s.splitOn ",").map natOr
+
+def insertSorted (x : Nat) : List Nat → List Nat
+  | [] => [x]
+  | y :: ys => if x ≤ y then x :: y :: ys else y :: insertSorted x ys
+
+def sortNats (l : List Nat) : List Nat := l.foldr insertSorted []
+
+def showNats (l : List Nat) : String :=
+  if l.isEmpty then "-" else joinWith "," (l.map toString)
+
+def showOpt : Option Nat → String
+  | none => "none"
+  | some n => toString n
+
+def showFiles (s : Sys) : String := s!"files {showNats (sortNats s.pub.files)}"
+
+def act (st : St) (a : Act) (render : Sys → List Obs → String) (disabled : String) : St × String :=
+  match st.sys with
+  | none => (st, "no-init")
+  | some s =>
+    match Publish.step s a with
+    | none => (st, disabled)
+    | some (s', obs) => ({ sys := some s' }, render s' obs)
+
+def applyCalls (s : Sys) (cs : List Store.Call) : Sys :=
+  cs.foldl (fun s c => match Publish.step s (.call c) with | some (s', _) => s' | none => s) s
+
+def step (st : St) : List String → St × String
+  | "init" :: ids :: _ =>
+    let s := Publish.init (natList ids)
+    ({ sys := some s }, s!"loaded {showOpt (load (natList ids))}")
+  | ["ckpt"] =>
+    match st.sys with
+    | none => (st, "no-init")
+    | some s =>
+      match Publish.step s (.call (.create [1] [1])) with
+      | some (s1, [.res (.id n)]) =>
+        ({ sys := some (applyCalls s1 [.opAck 1 n 0, .srAck 1 n []]) }, s!"id {n}")
+      | _ => (st, "inprogress")
+  | ["write", n] => act st (.write (natOr n)) (fun s _ => showFiles s) "disabled"
+  | ["lock", n] => act st (.lock (natOr n)) (fun s _ => s!"cur {showOpt s.pub.current}") "disabled"
+  | ["rems", _] =>
+    match st.sys with
+    | none => (st, "no-init")
+    | some s =>
+      let ls := (s.pub.removes.map fun r => showNats (sortNats r))
+      (st, s!"rems {if ls.isEmpty then "-" else joinWith ";" (ls.toArray.qsort (· < ·)).toList}")
+  | ["remove", ids] =>
+    match st.sys with
+    | none => (st, "no-init")
+    | some s =>
+      -- the pending removal with this id set (the code builds the list in slice order)
+      match s.pub.removes.find? (fun r => sortNats r == sortNats (natList ids)) with
+      | none => (st, "absent")
+      | some r => act st (.remove r) (fun s _ => showFiles s) "absent"
+  | ["drain", _] =>
+    match st.sys with
+    | none => (st, "no-init")
+    | some s =>
+      let all := s.pub.notifs.flatten
+      let s' := s.pub.notifs.foldl (fun s _ => match Publish.step s .deliver with | some (s', _) => s' | none => s) s
+      ({ sys := some s' }, s!"notify {showNats (sortNats all)}")
+  | ["crash"] => act st .crash (fun s _ => s!"loaded {showOpt s.pub.current}") "disabled"
+  | ["current"] =>
+    match st.sys with
+    | none => (st, "no-init")
+    | some s => (st, s!"cur {showOpt s.pub.current}")
+  | ["files"] =>
+    match st.sys with
+    | none => (st, "no-init")
+    | some s => (st, showFiles s)
+  | ["seg", id] => (st, toHex (pathSegment (natOr id)))
+  | ["name", id] => (st, toHex (snapName (natOr id)))
   | _ => (st, "bad-op")
 
 def handle (lines : Array String) (i : Nat) (out : Array String) : Nat × Array String :=
-  runLines step () lines i out
+  runLines step {} lines i out
 
 end Driver.C13
